@@ -204,6 +204,9 @@ def make_pred(desc, log):
             return str(id_) in idset
         if name == "md_eq":
             return md is not None and core.canon_md_entry(md).get(key) == val
+        if name == "md_idx":
+            # the documented way: md[key] on a defaultdict(lambda: None) — an entry lacking the key STORES key: None
+            return md is not None and json.dumps(core.canon_value(md[key]), sort_keys=True, ensure_ascii=False) == val
         if name == "mix":
             return (str(id_) in idset) != (wsum(v) > k)
         raise ValueError(name)
@@ -398,6 +401,9 @@ def run_filter(recipe, axis, keep, form, invert, inplace, mods, rng=None, deep=F
         if keep["kind"] == "pred":
             log_copy = list(log)
             accepted = [c["id"] for c in log_copy if c["ret"]]
+            if keep.get("effect_key") and twin.metadata(axis=axis) is not None:
+                for m in twin.metadata(axis=axis):
+                    m[keep["effect_key"]]          # the table as the user's predicate leaves it
             via = result_obs(lambda: twin.filter(accepted, axis=axis, invert=invert, inplace=False))
             log = log_copy
         obs = add_lookups({"result": res, "after": after, "calls": log, "via_ids": via}, before, rt, t, deep)
@@ -729,6 +735,20 @@ def vary_spec(spec, k):
                 blank = blank[1:]
             for j, i in enumerate(blank):
                 md[i] = {} if j % 2 == 0 else None
+            mode = (k // 4) % 3
+            if mode == 1:
+                # legitimate None / falsy VALUES (a missing measurement): entries that hold keys but no truthy value
+                falsy = [None, None, 0, "", False, [], 0.0]
+                for i, e in enumerate(md):
+                    if e and ((k // 12) % 2 == 0 or i % 2 == 0):
+                        md[i] = {kk: (None if (k // 24) % 2 == 0 else falsy[(i + j) % len(falsy)])
+                                 for j, kk in enumerate(sorted(e))}
+            elif mode == 2:
+                # entries annotated with DIFFERENT fields
+                for i, e in enumerate(md):
+                    if e:
+                        ks = sorted(e)
+                        md[i] = dict([(kk, e[kk]) for j, kk in enumerate(ks) if (i + j) % 2 == 0] + [("f%d" % (i % 3), i)])
             spec[key] = md
     if k % 4 in (2, 3):
         obs, samp = list(spec["obs"]), list(spec["samp"])
@@ -752,12 +772,16 @@ def subsets(ids):
 
 VEC_PREDS = [{"name": "sum_gt", "k": "1"}, {"name": "wsum_gt", "k": "3"}, {"name": "first_nz"},
              {"name": "last_pos"}, {"name": "nnz_ge", "k": "2"}, {"name": "md_eq", "key": "grp", "val": "\"a\""},
+             {"name": "md_idx", "key": "grp", "val": "\"a\""}, {"name": "md_idx", "key": "n", "val": "1"},
              {"name": "true"}, {"name": "false"}]
 SMALL_ROUTES = ["dense", "perm_sort", "csr", "csc", "sort_roundtrip", "perm_sort", "coo", "transpose2"]
 
 
 def pred_desc(d):
-    return dict({"kind": "pred"}, **d)
+    d = dict({"kind": "pred"}, **d)
+    if d.get("name") == "md_idx":
+        d["effect_key"] = d["key"]      # the user's function writes this key into the entries it is handed
+    return d
 
 
 def exhaustive_chunk(ctx, batch, impls, grids, full_product_upto=0):
@@ -1404,7 +1428,7 @@ def hardening_cases(ctx, batch, impls, n_cases, first=True):
         opts = [{"predstyle": "decorated"}, {"predstyle": "reentrant"}, {"warnings": "error"},
                 {"predstyle": "reentrant", "shared": True}][c % 4]
         if c % 2:
-            keep, form = pred_desc(dict(rng.choice(VEC_PREDS[:6]))), "pred"
+            keep, form = pred_desc(dict(rng.choice(VEC_PREDS[:8]))), "pred"
         else:
             keep, form = {"kind": "ids", "ids": [i for i in ids if rng.random() < 0.6][::-1]}, \
                 rng.choice(["list", "array", "tuple"])
